@@ -11,6 +11,7 @@ CONSTANTS
   TracerStyles = {"none", "native", "calls"}
   Threadeds = {FALSE, TRUE}
   Givens = {}
+  Blockeds = {"none"}
   Flags = {"tracer_not_reentrant"}
 INVARIANT Restored
 CHECK_DEADLOCK FALSE
